@@ -108,39 +108,40 @@ async def run_superstep_async(
         input_versions = {param: state.get_version(param) for param in node.inputs}
         wait_for_versions = {name: state.get_version(name) for name in node.wait_for}
 
-        # Check cache before execution. An InterruptNode that is being resumed
-        # (its response was supplied by the caller) bypasses the cache: the
-        # supplied response wins over a stored one, and it is not stored as if
-        # the handler had produced it.
-        cache_key, cached_outputs = ("", None)
-        if cache is not None and not _is_resuming_interrupt(node, state):
-            cache_key, cached_outputs = check_cache(node, inputs, cache)
-
-        if cached_outputs is not None:
-            outputs = cached_outputs
-            restore_routing_decision(node, outputs, new_state)
-            # Emit NodeStartEvent -> CacheHitEvent -> RouteDecision? -> NodeEndEvent(cached=True)
-            node_span_id, start_evt = build_node_start_event(run_id, run_span_id, node, graph)
-            if active:
-                await dispatcher.emit_async(start_evt)
-                await dispatcher.emit_async(build_cache_hit_event(run_id, node_span_id, run_span_id, node, graph, cache_key))
-                route_evt = build_route_decision_event(run_id, run_span_id, node, graph, new_state)
-                if route_evt is not None:
-                    await dispatcher.emit_async(route_evt)
-                await dispatcher.emit_async(build_node_end_event(run_id, node_span_id, run_span_id, node, graph, duration_ms=0.0, cached=True))
-            return node, outputs, input_versions, wait_for_versions
-
-        # Emit NodeStartEvent
+        # NodeStartEvent goes out before the cache is consulted: a processor that
+        # suspends while it is notified must not open a window between the cache
+        # lookup and the store, or concurrently running duplicates of a node
+        # (equal items of a map) would all miss although none of them suspends.
         node_span_id, start_evt = build_node_start_event(run_id, run_span_id, node, graph)
         if active:
             await dispatcher.emit_async(start_evt)
 
-        # Set node span_id on executor for nested graph propagation
-        if hasattr(execute_node, "current_span_id"):
-            execute_node.current_span_id[0] = node_span_id  # type: ignore[attr-defined]
-
-        node_start = time.time()
         try:
+            # Check cache before execution. An InterruptNode that is being resumed
+            # (its response was supplied by the caller) bypasses the cache: the
+            # supplied response wins over a stored one, and it is not stored as if
+            # the handler had produced it.
+            cache_key, cached_outputs = ("", None)
+            if cache is not None and not _is_resuming_interrupt(node, state):
+                cache_key, cached_outputs = check_cache(node, inputs, cache)
+
+            if cached_outputs is not None:
+                outputs = cached_outputs
+                restore_routing_decision(node, outputs, new_state)
+                # NodeStartEvent -> CacheHitEvent -> RouteDecision? -> NodeEndEvent(cached=True)
+                if active:
+                    await dispatcher.emit_async(build_cache_hit_event(run_id, node_span_id, run_span_id, node, graph, cache_key))
+                    route_evt = build_route_decision_event(run_id, run_span_id, node, graph, new_state)
+                    if route_evt is not None:
+                        await dispatcher.emit_async(route_evt)
+                    await dispatcher.emit_async(build_node_end_event(run_id, node_span_id, run_span_id, node, graph, duration_ms=0.0, cached=True))
+                return node, outputs, input_versions, wait_for_versions
+
+            # Set node span_id on executor for nested graph propagation
+            if hasattr(execute_node, "current_span_id"):
+                execute_node.current_span_id[0] = node_span_id  # type: ignore[attr-defined]
+
+            node_start = time.time()
             # Pass new_state so routing decisions are stored in the updated state
             outputs = await execute_node(node, new_state, inputs)
 
